@@ -49,7 +49,11 @@ def expected_kind(n):
     return "builtin" if KINDS.get(n) == "builtin" else "module"
 
 
-def run_history(ops):
+ENTRY = {"extract": lambda: stackscope.extract(G), "extract_outermost": lambda: stackscope.extract_outermost(G),
+         "extract_since": lambda: stackscope.extract_since(None), "extract_until": lambda: stackscope.extract_until(sys._getframe(0), limit=1)}
+
+
+def run_history(ops, entry="extract"):
     fresh_world()
     prev_len = len(sys.modules); prev_set = set(sys.modules)
     ever_present_at_extract = set()
@@ -61,7 +65,7 @@ def run_history(ops):
         else:
             with warnings.catch_warnings(record=True) as w:
                 warnings.simplefilter("always")
-                stackscope.extract(G)
+                ENTRY[entry]()
             same_card = len(sys.modules) == prev_len and set(sys.modules) != prev_set
             prev_len = len(sys.modules); prev_set = set(sys.modules)
             for n in MODS:
@@ -71,8 +75,8 @@ def run_history(ops):
                 if len(runs) > 1:
                     return ("twice-or-both", f"glue of {n} ran {runs}")
                 if n in sys.modules and runs != [expected_kind(n)]:
-                    return ("same-cardinality-change" if same_card else "not-installed-in-time",
-                            f"after {ops[:step]} extract: glue of {n} ran {runs}, expected [{expected_kind(n)!r}]")
+                    return ("same-cardinality-change" if same_card else "not-installed-in-time" + ("" if entry == "extract" else ":" + entry),
+                            f"after {ops[:step]} {entry}: glue of {n} ran {runs}, expected [{expected_kind(n)!r}]")
                 if n not in ever_present_at_extract and n not in sys.modules and runs:
                     pass
     return None
@@ -94,6 +98,14 @@ for L in range(1, maxlen + 1):
                     leg.violation(key, desc); seen_known = True
             else:
                 leg.violation(f"{key}:{ops}", desc)
+# other entry points (each drives the extraction machinery on its own): all histories of length <= 2
+for entry in ("extract_outermost", "extract_since", "extract_until"):
+    for L in (1, 2):
+        for ops in itertools.product(alphabet, repeat=L):
+            leg.case((entry,) + ops, any(o[0] == "add" for o in ops))
+            r = run_history(ops, entry)
+            if r and r[0] != "same-cardinality-change":
+                leg.violation(f"{r[0]}:{ops}", r[1])
 # raising glue: one warning, remaining modules still installed
 fresh_world()
 sys.modules["zz_r"] = MODS["zz_r"]; sys.modules["zz_m"] = MODS["zz_m"]
